@@ -227,6 +227,8 @@ pub fn run(report: &Report, thorough: bool) -> Evidence {
                 // (driver option `via_update`: created with every boolean option inverted, then update_engine)
                 o.via_update = idx % 2 == 1;
                 o.churn = idx % 4 == 2;
+                // ... and every eighth is a context created for a fixed layout and switched to phonetic by update-engine
+                o.via_switch = idx % 8 == 4;
                 let mut ctx = Ctx::new(&o).expect("ctx");
                 ctx.with_pre = !lists;
                 let mut d = Dfs { ctx, avro: &avro, report, alphabet, checked: 0, events: 0, text: String::new(), lists, samples: &samples, part: name };
